@@ -39,20 +39,32 @@ impl Check for C03 {
     }
     fn lanes(&self, tier: Tier) -> Vec<(&'static str, usize, usize)> {
         match tier {
-            Tier::Quick => vec![("unique", 4000, 400)],
-            Tier::Thorough => vec![("unique", 300_000, 500)],
+            Tier::Quick => vec![("unique", 6000, 400), ("or-heavy", 6000, 500)],
+            Tier::Thorough => vec![("unique", 300_000, 500), ("or-heavy", 300_000, 600)],
         }
     }
-    fn run_case(&self, _lane: &str, src: &mut Src, rep: &mut Report) -> Result<(), Failure> {
+    fn run_case(&self, lane: &str, src: &mut Src, rep: &mut Report) -> Result<(), Failure> {
         let mut kind = pick_kind(src);
         if kind == DescKind::Bare && src.chance(2, 3) {
             kind = DescKind::Wsh;
         }
-        let size = src.range(1, 7);
+        // lane or-heavy: many nested disjunctions whose branches mix signatures with (chains of)
+        // hashes and locks, spent by a signer who holds everything -- the situations in which
+        // the non-malleable chooser has real alternatives to rank
+        let heavy = lane == "or-heavy";
+        if heavy && !matches!(kind, DescKind::Wsh | DescKind::ShWsh | DescKind::Sh | DescKind::TrTree) {
+            kind = if src.bool() { DescKind::Wsh } else { DescKind::TrTree };
+        }
+        let size = if heavy { src.range(4, 10) } else { src.range(1, 7) };
         let d = gen::gen_desc(src, kind, &|ctx| {
             let mut c = Cfg::sane(ctx, size);
             c.key_style = KeyStyle::Rich;
             c.allow_uncompressed = true;
+            if heavy {
+                c.or_boost = 4;
+                c.leaf_w = [5, 5, 2];
+                c.key_style = KeyStyle::Hex;
+            }
             c
         });
         let sugar = src.bool();
@@ -68,7 +80,7 @@ impl Check for C03 {
             rep.class("not-sane");
             return Ok(());
         }
-        let mut world = gen::gen_world(src, &d);
+        let mut world = if heavy && src.chance(2, 3) { gen::gen_full_world(src, &d) } else { gen::gen_world(src, &d) };
         // hold most keys, so that the satisfier usually succeeds
         if src.chance(2, 3) {
             for k in d.all_keys() {
